@@ -17,6 +17,7 @@ import (
 	"verif/h/kit"
 	"verif/h/mc"
 	"verif/h/senderkit"
+	"verif/h/storekit"
 )
 
 func units(tier string) []mc.Unit {
@@ -38,6 +39,9 @@ func units(tier string) []mc.Unit {
 			}
 			cfg := senderkit.Cfg{Flow: "PP", Retry: retry, Hist: h, Faults: true, StoreRetriesForever: true}
 			us = append(us, mc.Unit{Name: cfg.String() + ",storage-faults", Params: cfg})
+			// failing reads (any SELECT of a send iteration refused once) with the default bounded store retries
+			cfg.StoreRetriesForever = false
+			us = append(us, mc.Unit{Name: cfg.String() + ",failing-reads", Params: cfg})
 		}
 	}
 	return us
@@ -63,6 +67,9 @@ func optsFor(cfg senderkit.Cfg) senderkit.Opts {
 	o := baseOpts
 	if cfg.Faults {
 		o.Crashes, o.StorageFaultsOnly, o.MaxCrashEvents = true, true, 2
+		if !cfg.StoreRetriesForever {
+			o.ReadFaults = 24 // a send iteration compiles fewer SELECTs than that on all of its stores
+		}
 	}
 	return o
 }
@@ -107,7 +114,7 @@ func main() {
 		Batch:   func(string) int { return 1 },
 		RunUnit: runUnit,
 		Replay:  replay,
-		Setup:   func(string) { kit.Quiet() },
+		Setup:   func(string) { kit.Quiet(); storekit.InstallStatementGate() },
 		Rule: "unit = (RetryCertAfterInError, flow PP|FEP, L2 history); inside a unit ALL sequences of the events {L2Block, EpochTick, StatusTick, " +
 			"Advance (one verdict step), Settle (verdict steps up to Settled between two polls), InError, FailNextAgglayerCall, ProverShort (FEP)} " +
 			"up to the depth bound are executed on fresh real objects (successor = replay of history+event); states are merged by a canonical key " +
